@@ -10,7 +10,8 @@
 From ReqV Require Import Lib.Bytes Model.Decode Model.BodyStages Model.H1Resp Model.H1Limits
   Model.AltSvc Model.H2Frame Proofs.BodyStagesProofs Proofs.H1LimitsProofs Proofs.AltSvcProofs Proofs.C07Misc
   Model.H2Info Proofs.H2InfoProofs Model.HeaderSlots Proofs.HeaderSlotsProofs Proofs.C07DigestAlg
-  Model.H3Control Proofs.H3ControlProofs Proofs.C07H2Order.
+  Model.H3Control Proofs.H3ControlProofs Proofs.C07H2Order
+  Model.H2Wake Proofs.H2WakeProofs Model.H3Retry Proofs.H3RetryProofs.
 From ReqV Require Model.Digest Gen.C07Consts Model.H3Frame Model.H3Limits Proofs.H3FrameProofs Proofs.H3LimitsProofs.
 From Coq Require Import Lia.
 Local Open Scope nat_scope.
@@ -335,6 +336,41 @@ Theorem C07_h3_control_check_then_act_refuted :
   c_closes (crun false [CType 0; CSettings 0; CType 1; CSettings 1]) = 1.
 Proof. exact control_guard_check_then_act_refuted. Qed.
 Print Assumptions C07_h3_control_check_then_act_refuted.
+
+(* ---------- HTTP/2: an upload parked on flow control is never left sleeping on an open window ---------- *)
+
+(* for every sequence of WINDOW_UPDATE / SETTINGS(INITIAL_WINDOW_SIZE) / other wake-ups, every initial
+   window and body size: the writer sleeps only while bytes are left AND its window is used up *)
+Theorem C07_h2_no_lost_wakeup : forall iws body evs,
+  (0 <= body)%Z -> winv (wrun true (wstart iws body) evs).
+Proof. exact no_lost_wakeup. Qed.
+Print Assumptions C07_h2_no_lost_wakeup.
+
+Theorem C07_h2_settings_open_finishes : forall iws body v evs,
+  (0 <= body)%Z -> let s := wrun true (wstart iws body) evs in
+  (w_left s <= w_win s + (v - w_iws s))%Z ->
+  w_left (wstep true s (WSettingsIWS v)) = 0%Z.
+Proof. exact settings_open_finishes. Qed.
+Print Assumptions C07_h2_settings_open_finishes.
+
+Theorem C07_h2_no_broadcast_on_settings_refuted :
+  let s := wrun false (wstart 0 11) [WSettingsIWS 65535] in
+  w_parked s = true /\ w_left s = 11%Z /\ w_win s = 65535%Z /\
+  w_left (wrun true (wstart 0 11) [WSettingsIWS 65535]) = 0%Z.
+Proof. exact no_broadcast_on_settings_refuted. Qed.
+Print Assumptions C07_h2_no_broadcast_on_settings_refuted.
+
+(* ---------- HTTP/3: one call sends its request at most twice, whatever the peer does ---------- *)
+
+Theorem C07_h3_at_most_two_attempts : forall c reused fails fuel,
+  2 <= fuel -> exists n, attempts true c fuel reused fails = Some n /\ n <= 2 /\ (reused = false -> n = 1).
+Proof. exact h3_at_most_two_attempts. Qed.
+Print Assumptions C07_h3_at_most_two_attempts.
+
+Theorem C07_h3_unguarded_replay_refuted : forall fuel,
+  attempts false {| r_replayable := true; r_only_cached := false |} fuel false (repeat FConnClosed fuel) = None.
+Proof. exact h3_unguarded_replay_refuted. Qed.
+Print Assumptions C07_h3_unguarded_replay_refuted.
 
 (* ---------- translator tie: limits and tables regenerated from the source ---------- *)
 
